@@ -69,7 +69,7 @@ def loop_invariants_of(mi, I):
     d = eval(compile(ast.Expression(node), mi.path, "eval"), {"__builtins__": {}}, env)
     for (q, n), v in d.items():
         if isinstance(v, dict):
-            I.loop_invariants[(q, n)] = LoopInv(v["inv"], v.get("havoc", ()), v.get("decreases"))
+            I.loop_invariants[(q, n)] = LoopInv(v["inv"], v.get("havoc", ()), v.get("decreases"), fresh=v.get("fresh"))
         else:
             I.loop_invariants[(q, n)] = LoopInv(v)
 
